@@ -87,9 +87,21 @@ package clusters
 //@   ensures [stored] cluster != nil ==> smhas(MC, box(toLower(key))) && smget(MC, box(toLower(key))) == box(cluster)
 //@   ensures [frame] forall k string :: {smhas(MC, box(k))} k != toLower(key) || cluster == nil ==> smhas(MC, box(k)) == old(smhas(MC, box(k))) && smget(MC, box(k)) == old(smget(MC, box(k)))
 
+//@ const delEntry = unbox(smget(MC, box(toLower(name))), "*ClusterInfo")
+
 //@ func (*manager).doDelete props C10, C15
-//@   modifies *
+//@   requires [typed] forall k ref :: {smhas(MC, k)} smhas(MC, k) ==> typeis(smget(MC, k), "*ClusterInfo") && unbox(smget(MC, k), "*ClusterInfo") != nil
+//@   modifies smap(&m.clusters)[box(toLower(name))], cancelled
 //@   ensures [removed] !smhas(MC, box(toLower(name)))
+//@   ensures [stopped] stop && old(smhas(MC, box(toLower(name)))) && old(delEntry.cancel) != nil ==> cancelled[old(delEntry.cancel)]
+//@   ensures [cancels_only_own] forall f ref :: {cancelled[f]} cancelled[f] && !old(cancelled[f]) ==> stop && old(smhas(MC, box(toLower(name)))) && f == old(delEntry.cancel)
+//@   ensures [cancel_monotone] forall f ref :: {cancelled[f]} old(cancelled[f]) ==> cancelled[f]
+
+//@ func (*ClusterInfo).Stop props C15
+//@   modifies cancelled
+//@   ensures [cancelled] c.cancel != nil ==> cancelled[c.cancel]
+//@   ensures [only_own] forall f ref :: {cancelled[f]} cancelled[f] && !old(cancelled[f]) ==> f == c.cancel
+//@   ensures [cancel_monotone] forall f ref :: {cancelled[f]} old(cancelled[f]) ==> cancelled[f]
 
 //@ func (*ClusterInfo).LoadServerNames props C10
 //@   trusted "result is serverNamesOf(c): [c.Cluster] ++ lower-cased server names of the stored secure-serving config"
@@ -147,11 +159,12 @@ package clusters
 
 //@ const defaultWF = (DEFAULTFG in fgalive) && fgval[DEFAULTFG] == gdefault()
 
-//@ func NewEmptyClusterInfo props C11
+//@ func NewEmptyClusterInfo props C11, C15
 //@   requires [default] defaultWF
 //@   modifies fgval, fgalive
 //@   ensures [wf] result != nil && (result.featuregate in fgalive) && result.featuregate != DEFAULTFG && fgval[result.featuregate] == gdefault() && defaultWF
 //@   ensures [name] result.Cluster == toLower(clusterName)
+//@   ensures [ctx_pair] result.ctx != nil && result.cancel != nil && cancelOf(result.ctx) == result.cancel
 //@   ensures [eps_empty] result.Endpoints != nil && (forall k ref :: {smhas(&result.Endpoints.data, k)} !smhas(&result.Endpoints.data, k)) && result.restConfig == config && result.skipSyncEndpoints == (config == nil && healthCheck == nil)
 
 //@ func CreateClusterInfo props C11
